@@ -57,6 +57,10 @@ add("C13", "exploration",
     "An independent transmitter model (flags, LSB-first bytes, bitwise CRC-16/X.25 with check value 0x906E, zero insertion) generates bit streams: noise preamble (re-drawn until the harness's own reference deframer finds nothing acceptable in it), 2+ flags, 1-8 frames with payload lengths 0,1,2, around min and max, and random, random and stuffing-heavy contents (0xFF/0x7E/0x3F runs), shared or separate flags; settings (min,max) incl. 0,1,2, checksum on/off, fix-bits on/off; delivered one-shot and under drip-feed chunking on a one-page stream. Oracle: exactly the frames with min <= L < max, once, in order (L = max either way). Corrupted part: every single-bit flip position of a framed packet and 300 (quick) / 2000 (thorough) sampled double flips per frame: no panic, every emitted packet is the original or justified by a CRC-valid raw frame found on the corrupted line by the reference deframer (one repaired bit away with fix-bits).",
     "Flags sharing their boundary zero are not generated as separators; with min_size 0 and checksum off the zero-length idle fill between adjacent flags is within the configured bounds and ignored. The transmitter model and reference deframer are harness code checked against each other and the CRC check value.",
     "runtime monitoring: independent transmitter model + reference deframer as oracle, exhaustive single-bit corruption sweep", "3/C13", "hdlc")
+add("C14", "exploration",
+    "Sample::serialize/parse/size compared bitwise on boundary values and 2*10^4 (quick) / 10^6 (thorough) random bit patterns per shard incl. NaN payloads for u8,u32,i32,f32,Complex. FileSink -> file -> FileSource on temp files under drip-feed schedules (lengths 0..3 capacities, 1-2 page streams) for u8,f32,Complex; SigMF recordings (-meta/-data) and tar archives with members in six orders and unrelated members for u8,f32,Complex; AuEncode -> AuDecode must equal trunc(clamp(x*32767))/32767 with exact count. Segmentation: FileSource reading a FIFO and TcpSource on a loop-back socket where the harness (single-threaded: write k bytes, then exactly one work()) chooses the size of every read() result: 1 byte, sample-1, sample+1, 1..3, 1..64, splits inside samples, dangling partial sample at the end, and one call with the output stream completely full.",
+    "i32/u32 streams are exercised through Sample only (the harness's stream ports carry u8,u32,f32,Complex). Durability is page-cache level. Loop-back TCP delivers each small write as one read result.",
+    "runtime monitoring: round-trip oracles with harness-controlled read segmentation", "3/C14", "formats")
 add("C12", "exploration",
     "Inputs carry uniquely keyed tags (0-5 per sample, clustered at likely split points); under drip-feed schedules the multiset (key, value, absolute output index) seen at the output must equal the expected mapping: identity for one-to-one blocks (first input only for multi-input blocks), both outputs of Tee, +delay for Delay, index/decimation for FirFilter, minus skip for Skip, identity for Hilbert/FftFilter/FftFilterFloat; added tags of VectorSource, CorrelateAccessCodeTag, BurstTagger, VecToStream on exactly the specified samples.",
     "Blocks documented as dropping tags (RationalResampler, RtlSdrDecode, AU codec, ...) are not judged. Tags on samples that never reach the output (FIR history tail) are expected to be absent.",
@@ -69,6 +73,8 @@ ENGINES = [
          kind_free_text="random/walker/boundary operation histories on one stream vs an executable queue model"),
     dict(name="drip-feed", path="harness/src/drip.rs, duts.rs, blockprops.rs", serves_properties=["C08", "C09", "C10", "C12"],
          kind_free_text="harness plays both neighbours of one block on small streams; per-call observation through hook events"),
+    dict(name="formats", path="harness/src/formats.rs", serves_properties=["C14"],
+         kind_free_text="byte-format round trips through temp files, tar archives, FIFOs and loop-back sockets with controlled read sizes"),
     dict(name="hdlc", path="harness/src/hdlc.rs, hdlcprop.rs", serves_properties=["C13"],
          kind_free_text="HDLC transmitter model, reference deframer, clean and corrupted stream oracles"),
     dict(name="kernels", path="harness/src/kernels.rs", serves_properties=["C11"],
